@@ -891,18 +891,64 @@ pub fn path_strategy() -> BoxedStrategy<Vec<u8>> {
 }
 
 fn layer_strategy() -> BoxedStrategy<Vec<LEnt>> {
-    let kind = prop_oneof![
-        5 => (any::<u32>(), prop_oneof![Just(0u16), Just(1), Just(4096), 0u16..9000], any::<u16>()).prop_map(|(seed, len, mode)| LKind::File { seed, len, mode }),
-        5 => any::<u16>().prop_map(|mode| LKind::Dir { mode }),
-        1 => any::<u8>().prop_map(LKind::Symlink),
-        3 => Just(LKind::Whiteout),
-        2 => any::<u8>().prop_map(LKind::OpaqueDir),
-    ];
-    proptest::collection::vec((path_strategy(), kind).prop_map(|(path, kind)| LEnt { path, kind }), 0..10).boxed()
+    let kind = || {
+        prop_oneof![
+            5 => (any::<u32>(), prop_oneof![Just(0u16), Just(1), Just(4096), 0u16..9000], any::<u16>()).prop_map(|(seed, len, mode)| LKind::File { seed, len, mode }),
+            5 => any::<u16>().prop_map(|mode| LKind::Dir { mode }),
+            1 => any::<u8>().prop_map(LKind::Symlink),
+            3 => Just(LKind::Whiteout),
+            2 => any::<u8>().prop_map(LKind::OpaqueDir),
+        ]
+    };
+    // entries at random paths, plus children placed INSIDE directories (plain and opaque) of the
+    // same layer: populated opaque / merged directories are what deletes and re-creates act on
+    (
+        proptest::collection::vec((path_strategy(), kind()).prop_map(|(path, kind)| LEnt { path, kind }), 0..10),
+        proptest::collection::vec((any::<u8>(), 0u8..NAMES.len() as u8, kind()), 0..5),
+    )
+        .prop_map(|(mut ents, extras)| {
+            for (sel, name, kind) in extras {
+                let dirs: Vec<Vec<u8>> = ents.iter().filter(|e| matches!(e.kind, LKind::Dir { .. } | LKind::OpaqueDir(_)) && e.path.len() < 3).map(|e| e.path.clone()).collect();
+                if dirs.is_empty() {
+                    break;
+                }
+                let mut path = dirs[sel as usize % dirs.len()].clone();
+                path.push(name);
+                ents.push(LEnt { path, kind });
+            }
+            ents
+        })
+        .boxed()
+}
+
+/// paths for operations: half of them aim at (or just below / next to) something a layer contains
+fn op_path(known: Vec<Vec<u8>>) -> BoxedStrategy<Vec<u8>> {
+    if known.is_empty() {
+        return path_strategy();
+    }
+    let k2 = known.clone();
+    prop_oneof![
+        3 => (0..known.len()).prop_map(move |i| known[i].clone()),
+        1 => (0..k2.len(), 0u8..NAMES.len() as u8).prop_map(move |(i, n)| {
+            let mut p = k2[i].clone();
+            if p.len() < 3 {
+                p.push(n);
+            } else {
+                *p.last_mut().unwrap() = n;
+            }
+            p
+        }),
+        3 => path_strategy(),
+    ]
+    .boxed()
 }
 
 pub fn op_strategy(rewrite_heavy: bool) -> BoxedStrategy<OOp> {
-    let p = path_strategy;
+    op_strategy_on(rewrite_heavy, vec![])
+}
+
+pub fn op_strategy_on(rewrite_heavy: bool, known: Vec<Vec<u8>>) -> BoxedStrategy<OOp> {
+    let p = move || op_path(known.clone());
     let w = if rewrite_heavy { 3 } else { 1 };
     prop_oneof![
         2 => p().prop_map(OOp::Getattr),
@@ -929,15 +975,19 @@ pub fn op_strategy(rewrite_heavy: bool) -> BoxedStrategy<OOp> {
 }
 
 pub fn strategy(always_upper: bool, rewrite_heavy: bool, max_ops: usize) -> BoxedStrategy<Case> {
-    (if always_upper { Just(true).boxed() } else { prop::bool::weighted(0.85).boxed() }, proptest::collection::vec(layer_strategy(), 1..4), layer_strategy(), proptest::collection::vec(op_strategy(rewrite_heavy), 1..max_ops))
-        .prop_map(|(has_upper, lowers, upper, ops)| {
+    (if always_upper { Just(true).boxed() } else { prop::bool::weighted(0.85).boxed() }, proptest::collection::vec(layer_strategy(), 1..4), layer_strategy())
+        .prop_flat_map(move |(has_upper, lowers, upper)| {
             let mut layers = vec![];
             if has_upper {
                 layers.push(upper);
             }
             layers.extend(lowers);
-            Case { has_upper, layers, ops }
+            let mut known: Vec<Vec<u8>> = layers.iter().flatten().map(|e| e.path.clone()).collect();
+            known.sort();
+            known.dedup();
+            (Just(has_upper), Just(layers), proptest::collection::vec(op_strategy_on(rewrite_heavy, known), 1..max_ops))
         })
+        .prop_map(|(has_upper, layers, ops)| Case { has_upper, layers, ops })
         .boxed()
 }
 
